@@ -15,7 +15,7 @@ pub fn def() -> PropDef {
         level: "exploration",
         profile,
         oracle: |_cfg| Box::new(C01::default()),
-        quick_runs: 24_000,
+        quick_runs: 72_000,
         thorough_runs: 600_000,
         panic_is_violation: false,
         rule: "run = seeded multi-replica history (2-6 replicas, gossip with loss/dup/reorder, merges, forks, clean restarts) followed by a quiesce phase in which every replica is brought to the full change set by a different ingestion path; non-trivial = history has >=2 concurrent changes touching the same object and >=2 distinct ingestion paths were used; distinct by digest of (DAG shape, path assignment)",
